@@ -40,7 +40,7 @@ func genC03(r *rand.Rand, tier string, idx int) *World {
 	}
 	e := &EDSDef{NS: "ns1", Name: "foo", Initial: "A", Templates: map[string]*TemplateDef{"A": {Letter: "A"}, "B": {Letter: "B"}}}
 	e.Strategy = StrategyDef{
-		MaxUnavailable:      pick(r, "1", "2", "3", "10%", "25%", "50%", "100%", ""),
+		MaxUnavailable:      pick(r, "1", "2", "3", "10%", "25%", "50%", "100%", "", "0", "0%"),
 		MaxPodSchedulerFail: pick(r, "", "0", "1", "2", "10%", "50%"),
 		ReconcileFrequency:  "10s",
 		SlowStartInterval:   pick(r, "1s", "1m"),
@@ -932,7 +932,7 @@ func genC09Inject(r *rand.Rand, tier string, idx int) *World {
 		SlowStartInterval:  pick(r, "1s", "10s", "1m", "5m", "500ms", "1500ms", "2m30s"),
 		SlowStartIncrease:  pick(r, "1", "2", "5", "10%", "50%", "1", "2", "5", "10%", "50%", "0", "0%"),
 		ReconcileFrequency: pick(r, "1s", "10s", "1m"),
-		MaxUnavailable:     pick(r, "1", "3", "25%", "100%"),
+		MaxUnavailable:     pick(r, "1", "3", "25%", "100%", "0", "0%"),
 	}
 	e.Strategy.MaxParallel = i32(pick(r, int32(1), 2, 5, 250, 1, 2, 5, 250, 0))
 	w.EDS = []*EDSDef{e}
